@@ -55,6 +55,7 @@ def run_case(case, eng, res):
         res["witnesses"].append({
             "replay": A.replay_spec(run, m, "C01"),
             "expected": {"frames": [C.ev_seq(m, f).hex() for f in run.frames],
+                         "blobframes": [i for i, f in enumerate(run.frames) if f.has_blob()],
                          "outcome": run.outcome if run.outcome == "exc" else "ok"},
         })
         if len(res["samples"]) < 2:
@@ -76,7 +77,7 @@ def main(tier):
     FL.lemma_amps(65535)
     cases = []
     for op in A.T1_OPS + A.T2_OPS:
-        if op in ("create_schedule", "control_breeze_device"):
+        if op == "create_schedule":
             continue
         cases += A.op_cases(op, tier)
     results = H.run_cases("harness.C01", "run_case", cases, timeout_ms=60000 if tier == "quick" else 600000)
@@ -101,7 +102,12 @@ def validate_witnesses(results):
     good = 0
     for (r, w), o in zip(wit, obs):
         exp = w["expected"]
-        ok = o.get("frames") == exp["frames"] and (("exception" in o) == (exp["outcome"] == "exc"))
+        # frames holding a symbolic-length blob were signed with an uninterpreted CRC fold: compare all but the signature
+        bf = set(exp.get("blobframes", []))
+        gotf = o.get("frames") or []
+        same = len(gotf) == len(exp["frames"]) and all((g[:-8] == e[:-8]) if i in bf else (g == e)
+                                                       for i, (g, e) in enumerate(zip(gotf, exp["frames"])))
+        ok = same and (("exception" in o) == (exp["outcome"] == "exc"))
         if ok:
             good += 1
         else:
